@@ -155,10 +155,8 @@ impl Recreate for Slicing {
 
 impl ReturnType for Slicing {
     fn return_type(&self) -> Type {
-        self.lhs
-            .return_type()
-            .element_type()
-            .unwrap_or(Type::String)
+        // a slice of a string is a string, a slice of [T] is a [T]
+        self.lhs.return_type()
     }
 }
 
